@@ -19,7 +19,7 @@ theorem err_unchanged (p : Prob) (op : Op) (h : (step p op).2 = .err) : (step p 
 /-! ### the symbol table behind every name query (symtab.c, model `Qsx.Symtab`)
 
 For every history of registrations (named or unnamed, with table growth and string-pool
-maintenance) and deletions (swap with the last entry) the hash structure stays consistent, the
+maintenance), deletions (swap with the last entry) and renamings the hash structure stays consistent, the
 table holds exactly the list a four-line specification computes, and a lookup returns exactly the
 position of the name in that list. -/
 
@@ -29,16 +29,19 @@ open Qsx.Symtab
 inductive Op
   | reg (s : Option Name) (idx : Int)
   | del (s : Name)
+  | ren (i : Nat) (s : Option Name)
 
 def step (t : T) : Op → T
   | .reg s i => (register t s i).1
   | .del s => (delete t s).1
+  | .ren i s => (rename t i s).1
 
 /-- the specification: a plain list of optional names -/
 def specStep (l : List (Option Name)) : Op → List (Option Name)
   | .reg none _ => l ++ [none]
   | .reg (some n) _ => if some n ∈ l then l else l ++ [some n]
   | .del s => specDelete l s
+  | .ren i s => specRename l i s
 
 theorem history_from (ops : List Op) : ∀ (t : T), WF t →
     WF (ops.foldl step t) ∧ abs (ops.foldl step t) = ops.foldl specStep (abs t) := by
@@ -54,6 +57,7 @@ theorem history_from (ops : List Op) : ∀ (t : T), WF t →
         have := (register_abs hw s i).1
         cases s <;> simpa [step, specStep] using this
       | del s => exact ⟨delete_wf hw s, (delete_abs hw s).1⟩
+      | ren i s => exact ⟨rename_wf hw i s, rename_abs hw i s⟩
     obtain ⟨h1, h2⟩ := ih (step t op) hstep.1
     exact ⟨h1, by rw [h2, hstep.2]⟩
 
@@ -84,8 +88,8 @@ theorem symtab_lookup_history (n : Nat) (ops : List Sym.Op) (s : Qsx.Symtab.Name
 /-- the hypotheses are met by a non-trivial history: three names into a table of initial size 1
 (two growth steps), one deletion in the middle -/
 example :
-    let ops : List Sym.Op := [.reg (some [97]) 0, .reg (some [98]) 1, .reg (some [99]) 2, .del [97]]
-    ops.foldl Sym.specStep [] = [some [99], some [98]] ∧
+    let ops : List Sym.Op := [.reg (some [97]) 0, .reg (some [98]) 1, .reg (some [99]) 2, .del [97], .ren 1 (some [100])]
+    ops.foldl Sym.specStep [] = [some [99], some [100]] ∧
     Qsx.Symtab.lookup (ops.foldl Sym.step (Qsx.Symtab.create 1)) [99] = some 0 := by
   decide +kernel
 
